@@ -141,8 +141,9 @@ def write_back(ck, P):
         f = P.fn(path)
         if not ck.anchor("fn " + path, f):
             continue
-        swaps = f.live_calls(r"core::mem::swap$")
-        ck.decide(len(swaps) == 2, R, path.replace(Z, "") + ":swaps", "two mem::swap at entry", "expected two mem::swap (bit_reader, writer), found %d" % len(swaps), where(f))
+        swaps = f.live_calls(r"core::mem::(swap|replace|take)$")
+        ck.decide(len(swaps) == 2, R, path.replace(Z, "") + ":swaps", "bit_reader and writer taken out of the state at entry (mem::swap/replace/take)",
+                  "expected the two state members (bit_reader, writer) to be taken out with mem::swap/replace/take, found %d such calls" % len(swaps), where(f))
         rets = [b for b, k in f.exits() if k == "return"]
         for field in ("bit_reader", "writer"):
             wb = set()
